@@ -1,10 +1,11 @@
 import Rare.Proofs.ExprSafe
 import Rare.Model.Expr.Funcs.Arith
 /-!
-C08 for the `Arith` family: every integer / bucketing builder is panic-free on safe arguments.
-The float-valued builders answer `unmodelled` (a `.panic "unmodelled:…"` node) for the inputs
-whose IEEE value the model does not compute; they are listed in `arithUnmodelled` and are outside
-the theorem.
+C08 for the `Arith` family (which includes the `Float` table): every integer / bucketing builder
+and every float-valued builder computed on the software binary64 model is panic-free on safe
+arguments.  Only `pow`, `log10`, `log2`, `ln` (Go's `math.Pow` / `math.Log*`) still answer
+`unmodelled` (a `.panic "unmodelled:…"` node) once their arguments have parsed; they are listed in
+`arithUnmodelled` and are outside the theorem.
 
 The first section holds lemmas about the shared static-evaluation helpers of `Build.lean`
 (to be moved to `ExprSafe.lean`).
@@ -192,22 +193,243 @@ theorem kfExpBucket_safe : SafeBuilder kfExpBucket := by
     cases atoi v <;> exact Safe.pure _
   · exact SafeResult.errArgCount
 
-/-- Builders that answer `unmodelled` for the inputs whose float value the model does not compute. -/
-def arithUnmodelled : List String :=
-  ["isnum", "lt", "gt", "lte", "gte", "sumf", "subf", "multf", "divf", "pow", "ceil", "floor",
-   "log10", "log2", "ln", "sqrt", "round", "hf", "percent"]
+end Rare.Expr.Funcs.Arith
 
-/-- Every integer, bucketing and type-test builder of the family is panic-free. -/
-theorem arith_safe : ∀ p ∈ table, p.1 ∉ arithUnmodelled → SafeBuilder p.2 := by
+namespace Rare.Expr.Funcs.Float
+open Rare.Expr
+
+/-! ### the float builders (software binary64 model) -/
+
+theorem foldRunF_safe (op : F64 → F64 → F64) : ∀ (typed : List (Comp (Option F64))) (acc : F64),
+    (∀ t ∈ typed, Safe t) → Safe (foldRunF op acc typed)
+  | [], acc, _ => .ret _
+  | t :: rest, acc, h => by
+    unfold foldRunF
+    apply Safe.bind' (h t (by simp))
+    intro v
+    cases v with
+    | none => exact Safe.pure _
+    | some x => exact foldRunF_safe op rest _ fun y hy => h y (by simp [hy])
+
+theorem floatRun_safe (op : F64 → F64 → F64) (typed : List (Comp (Option F64))) (h : ∀ t ∈ typed, Safe t) :
+    Safe (floatRun op typed) := by
+  cases typed with
+  | nil => exact .ret _
+  | cons t rest =>
+    unfold floatRun
+    apply Safe.bind' (h t (by simp))
+    intro v
+    cases v with
+    | none => exact Safe.pure _
+    | some x => exact foldRunF_safe op rest x fun y hy => h y (by simp [hy])
+
+theorem floatHelper_safe (op : F64 → F64 → F64) : SafeBuilder (floatHelper op) := by
+  intro args h
+  show SafeResult _
+  unfold floatHelper
+  split
+  · exact SafeResult.errArgCount
+  · rcases mapTypedArgs_safe parseF args h with e | ⟨ts, e, hts⟩
+    · rw [e]; exact SafeResult.errNum
+    · rw [e]; exact SafeResult.ok (floatRun_safe op ts hts)
+
+theorem unaryF_safe (f : F64 → Bytes) : SafeBuilder (unaryF f) := by
+  intro args h
+  show SafeResult _
+  unfold unaryF
+  split
+  · rename_i a
+    apply SafeResult.ok
+    apply Safe.bind' (h a (by simp))
+    intro v
+    cases parseF v <;> exact Safe.pure _
+  · exact SafeResult.errArgCount
+
+theorem kfRound_safe : SafeBuilder kfRound := by
+  intro args h
+  show SafeResult _
+  unfold kfRound
+  split
+  · exact SafeResult.errArgCount
+  · obtain ⟨r, hr⟩ := evalArgInt_safe h 1 0
+    rw [hr]
+    cases r with
+    | none => exact SafeResult.errConst
+    | some precision =>
+      simp only []
+      split
+      · exact SafeResult.errValue
+      · split
+        · rename_i a l hlen
+          apply SafeResult.ok
+          apply Safe.bind' (h a (by simp))
+          intro v
+          cases parseF v <;> exact Safe.pure _
+        · exact SafeResult.errArgCount
+
+theorem cmpHelper_safe (test : F64 → F64 → Bool) : SafeBuilder (cmpHelper test) := by
+  intro args h
+  show SafeResult _
+  unfold cmpHelper
+  split
+  · rename_i a0 a1
+    rcases evalTypedStage_safe parseF (h a0 (by simp)) with e | ⟨l, e, hl⟩
+    · rw [e]; exact SafeResult.errNum
+    · rw [e]
+      rcases evalTypedStage_safe parseF (h a1 (by simp)) with e2 | ⟨r, e2, hr⟩
+      · rw [e2]; exact SafeResult.errNum
+      · rw [e2]
+        apply SafeResult.ok
+        apply Safe.bind' hl
+        intro lv
+        cases lv with
+        | none => exact Safe.pure _
+        | some x =>
+          apply Safe.bind' hr
+          intro rv
+          cases rv <;> exact Safe.pure _
+  · exact SafeResult.errArgCount
+
+theorem kfIsNum_safe : SafeBuilder kfIsNum := by
+  intro args h
+  show SafeResult _
+  unfold kfIsNum
+  split
+  · rename_i a
+    exact SafeResult.ok (Safe.bind' (h a (by simp)) fun v => Safe.pure _)
+  · exact SafeResult.errArgCount
+
+/-- The run-time closure of `kfPercent`. -/
+theorem percentRun_safe {smin smax : Comp (Option F64)} {a0 : Stage} (decimals : Int)
+    (h1 : Safe smin) (h2 : Safe smax) (h0 : Safe a0) :
+    Safe (do
+      let mn ← smin
+      match mn with
+      | none => pure ErrorNum
+      | some min =>
+        let mx ← smax
+        match mx with
+        | none => pure ErrorNum
+        | some max =>
+          let v ← a0
+          match parseF v with
+          | none => pure ErrorNum
+          | some val => pure (percentStr val min max decimals) : Stage) := by
+  apply Safe.bind' h1
+  intro mn
+  cases mn with
+  | none => exact Safe.pure _
+  | some min =>
+    apply Safe.bind' h2
+    intro mx
+    cases mx with
+    | none => exact Safe.pure _
+    | some max =>
+      apply Safe.bind' h0
+      intro v
+      cases parseF v <;> exact Safe.pure _
+
+theorem kfPercent_safe : SafeBuilder kfPercent := by
+  intro args h
+  show SafeResult _
+  unfold kfPercent
+  split
+  · exact SafeResult.errArgCount
+  · obtain ⟨r, hr⟩ := evalArgInt_safe h 1 1
+    rw [hr]
+    cases r with
+    | none => exact SafeResult.errConst
+    | some decimals =>
+      simp only []
+      split
+      · exact SafeResult.errValue
+      · -- case analysis on the argument list
+        match args, h with
+        | [], _ => exact SafeResult.errNum
+        | [a0], h => exact SafeResult.ok (percentRun_safe _ (.ret _) (.ret _) (h a0 (by simp)))
+        | [a0, _], h => exact SafeResult.ok (percentRun_safe _ (.ret _) (.ret _) (h a0 (by simp)))
+        | [a0, _, mx], h =>
+          simp only []
+          rcases evalTypedStage_safe parseF (h mx (by simp)) with e | ⟨t, e, ht⟩
+          · rw [e]; exact SafeResult.errNum
+          · rw [e]; exact SafeResult.ok (percentRun_safe _ (.ret _) ht (h a0 (by simp)))
+        | [a0, _, mn, mx], h =>
+          simp only []
+          rcases evalTypedStage_safe parseF (h mn (by simp)) with e | ⟨t, e, ht⟩
+          · rw [e]
+            rcases evalTypedStage_safe parseF (h mx (by simp)) with e2 | ⟨t2, e2, ht2⟩
+            · rw [e2]; exact SafeResult.errNum
+            · rw [e2]; exact SafeResult.errNum
+          · rw [e]
+            rcases evalTypedStage_safe parseF (h mx (by simp)) with e2 | ⟨t2, e2, ht2⟩
+            · rw [e2]; exact SafeResult.errNum
+            · rw [e2]; exact SafeResult.ok (percentRun_safe _ ht ht2 (h a0 (by simp)))
+        | _ :: _ :: _ :: _ :: _ :: _, h => exact SafeResult.ok (percentRun_safe _ (.ret _) (.ret _) (h _ (by simp)))
+
+theorem unitHelper_safe (unsigned : Bool) (step : Int) (delim : Bytes) (units : List String) :
+    SafeBuilder (unitHelper unsigned step delim units) := by
+  intro args h
+  show SafeResult _
+  unfold unitHelper
+  split
+  · exact SafeResult.errArgCount
+  · obtain ⟨r, hr⟩ := evalArgInt_safe h 1 0
+    rw [hr]
+    cases r with
+    | none => exact SafeResult.errNum
+    | some precision =>
+      simp only []
+      split
+      · exact SafeResult.errValue
+      · split
+        · rename_i a l hlen
+          apply SafeResult.ok
+          apply Safe.bind' (h a (by simp))
+          intro v
+          split <;> exact Safe.pure _
+        · exact SafeResult.errArgCount
+
+/-- Builders that still answer `unmodelled` once their arguments have parsed (`math.Pow`, `math.Log*`). -/
+def floatUnmodelled : List String := ["pow", "log10", "log2", "ln"]
+
+theorem float_safe : ∀ p ∈ table, p.1 ∉ floatUnmodelled → SafeBuilder p.2 := by
   intro p hp hn
   simp only [table, List.mem_cons, List.not_mem_nil, or_false] at hp
-  rcases hp with e | e | e | e | e | e | e | e | e | e | e | e | e | e | e | e | e | e | e | e | e | e | e | e | e | e | e | e | e | e | e <;>
+  rcases hp with e | e | e | e | e | e | e | e | e | e | e | e | e | e | e | e | e | e | e | e | e | e <;>
+    subst e <;> first
+      | exact floatHelper_safe _
+      | exact unaryF_safe _
+      | exact kfRound_safe
+      | exact cmpHelper_safe _
+      | exact kfIsNum_safe
+      | exact kfPercent_safe
+      | exact unitHelper_safe _ _ _ _
+      | exact absurd (by decide) hn
+
+end Rare.Expr.Funcs.Float
+
+namespace Rare.Expr.Funcs.Arith
+open Rare.Expr
+
+/-- Builders that answer `unmodelled` for the inputs whose value the model does not compute. -/
+def arithUnmodelled : List String := Float.floatUnmodelled
+
+theorem int_safe : ∀ p ∈ intTable, SafeBuilder p.2 := by
+  intro p hp
+  simp only [intTable, List.mem_cons, List.not_mem_nil, or_false] at hp
+  rcases hp with e | e | e | e | e | e | e | e | e | e | e | e <;>
     subst e <;> first
       | exact intHelper_safe _
       | exact kfIsInt_safe
       | exact bucketBuilder_safe _
       | exact kfClamp_safe
       | exact kfExpBucket_safe
-      | exact absurd (by decide) hn
+
+/-- Every integer, bucketing, type-test and software-float builder of the family is panic-free. -/
+theorem arith_safe : ∀ p ∈ table, p.1 ∉ arithUnmodelled → SafeBuilder p.2 := by
+  intro p hp hn
+  rcases List.mem_append.mp hp with h | h
+  · exact int_safe p h
+  · exact Float.float_safe p h hn
 
 end Rare.Expr.Funcs.Arith
